@@ -181,10 +181,7 @@ impl Indexable for ast::Def {
 
         // a name that does not start with an identifier (`def "" : …`, `def !strconcat(…) : …`)
         // is computed: the record is indexed like one without a name
-        let name = self
-            .name()
-            .filter(|it| !is_named_after_defm(it))
-            .and_then(|it| index_name_value(it, ctx));
+        let name = self.name().and_then(|it| index_name_value(it, ctx));
         let def_id = match name {
             Some((name, define_loc)) => {
                 let def = Record::new(name, RecordKind::Def, define_loc);
@@ -214,20 +211,36 @@ impl Indexable for ast::Def {
     }
 }
 
-/// `def NAME#"_x"` / `defm NAME : …` inside a multiclass: the record is named after the defm that
-/// instantiates the multiclass. It has no name of its own - and must not be entered under the
-/// name `NAME`, which would turn every later `NAME` into a reference to it.
-fn is_named_after_defm(value: &ast::Value) -> bool {
-    let first = value.inner_values().next().and_then(|it| it.simple_value());
-    matches!(first, Some(ast::SimpleValue::Identifier(id)) if id.value().is_some_and(|it| it == "NAME"))
+/// The name of a def or defm, if it has one of its own: it starts with an identifier, and that
+/// identifier is not `NAME` (`def NAME#"_x"` / `defm NAME : …` inside a multiclass are named
+/// after the defm that instantiates the multiclass; entered under the name `NAME` they would turn
+/// every later `NAME` into a reference to them).
+fn index_name_value(value: ast::Value, ctx: &mut IndexCtx) -> Option<(EcoString, FileRange)> {
+    let mut inner_values = value.inner_values();
+    let first = inner_values.next()?;
+    let name = match first.simple_value() {
+        Some(ast::SimpleValue::Identifier(id)) => utils::identifier(&id, ctx),
+        _ => None,
+    };
+    // what is pasted to the name is made of ordinary values (`def R#i`, `def NAME#"_"#dim.Name`),
+    // and so is a name that is computed as a whole (`def Foo<"load", frag>.record`)
+    if name.is_none() {
+        index_name_part(&first, ctx);
+    }
+    for inner_value in inner_values {
+        index_name_part(&inner_value, ctx);
+    }
+    name.filter(|(name, _)| name != "NAME")
 }
 
-fn index_name_value(value: ast::Value, ctx: &mut IndexCtx) -> Option<(EcoString, FileRange)> {
-    let name = value.inner_values().next()?;
-    match name.simple_value()? {
-        ast::SimpleValue::Identifier(id) => utils::identifier(&id, ctx),
-        _ => None,
+fn index_name_part(inner_value: &ast::InnerValue, ctx: &mut IndexCtx) {
+    // in a name, an identifier that denotes nothing stands for itself (`def NAME#_acq_rel`)
+    if let Some(ast::SimpleValue::Identifier(id)) = inner_value.simple_value() {
+        if id.value().is_some_and(|name| ctx.resolve_id(&name).is_none()) {
+            return;
+        }
     }
+    inner_value.index(ctx);
 }
 
 impl Indexable for ast::Defm {
@@ -235,10 +248,7 @@ impl Indexable for ast::Defm {
     fn index(&self, ctx: &mut IndexCtx) -> Option<Self::Output> {
         let defset_id = ctx.scopes.current_defset_id();
 
-        let name = self
-            .name()
-            .filter(|it| !is_named_after_defm(it))
-            .and_then(|it| index_name_value(it, ctx));
+        let name = self.name().and_then(|it| index_name_value(it, ctx));
         let defm_id = match name {
             Some((name, define_loc)) => {
                 let defm = Defm::new(name, define_loc);
